@@ -33,6 +33,10 @@ CHECKS = {
             "DESIGN.md 3/C05",
             "For generated small inputs and every reader/writer target the fault points are enumerated: all truncation offsets (<= 4 KiB streams, sampled beyond), all read-call and write-call indices (<= 400 calls, sampled beyond) x four error kinds, short-read/short-write cycles and Interrupted at generated positions. Oracles: truncation => Err unless the clean run never needed the bytes; reached I/O error => Err of the same kind; short/interrupted I/O => identical bytes; sink error => some writer call fails.",
             "MT readers/writers are covered by C09; BCJ/Delta streams have no framing so truncation is not applied to them; one recorded finding (empty source decodes as empty LZIP file, forced by the pinned test suite)."),
+    "C07": ("exploration", "stateful property-based testing: generated write/empty-write/flush histories and read-size sequences, in-memory concatenation as model",
+            "DESIGN.md 3/C07",
+            "Generated histories (cycles of Write(n) / Write(empty) / Flush partitioning a generated input) for LZMAWriter, LZMA2Writer, XZWriter, LZIPWriter, the eight BCJWriters and DeltaWriter, and generated destination-size sequences (incl. 0 and 1) for every reader and filter reader. Oracles: the stream decodes to the concatenation of the slices; filter writers emit exactly the single-write bytes; reader output is independent of the size sequence; a zero-length read returns Ok(0) and disturbs nothing.",
+            "MT writers' partition independence is checked under the deterministic scheduler in C08/C13; the BCJWriter multi-write finding is recorded and excluded by signature."),
 }
 
 NOT_YET = {
